@@ -205,6 +205,21 @@ def run(chk, facts_dir, tier):
             else:
                 chk.fail("R4.2", r, "record-writer:" + fn, "%s is called outside WriterSet::handle_write: records can be written without the event/commit protocol" % fn, b, b.term(bi)["line"])
 
+    # ---------------- R4.7 a failed transaction leaves nothing behind
+    chk.rule("R4.7", "FAILED TRANSACTIONS ARE ROLLED BACK: every Err result of handle_write - whatever the error - reaches the truncation of the segment to the offset before "
+                     "the write, before the request is answered; a rollback limited to some error variants leaves the first events of a transaction that failed on a later event "
+                     "in the segment without a commit record (shared with C01 R1.6)")
+    from . import c01 as _c01
+    from ..util import forwarding_sites
+    HAE = "sierradb::writer_thread_pool::Worker::handle_append_events"
+    hb_ = prog.body(HAE)
+    chk.analysed(HAE)
+    hw_ = calls(hb_, WS + "::handle_write")
+    sl_ = forwarding_sites(prog, hb_, BSW + "set_len", 1)
+    if len(hw_) != 1 or len(sl_) != 1:
+        raise Inconclusive("handle_append_events: expected one handle_write and one rollback site")
+    _c01.check_rollback_reached(chk, prog, hb_, Ev(prog, hb_), hw_, sl_, rule="R4.7")
+
     # ---------------- R4.5
     stream_filter_applied(chk, prog, "R4.5")
 
